@@ -255,9 +255,10 @@ Definition ex_afterclose : list Z := [1; 1; 1; 2; 0; 1; 0; 1; 1; 0; 0; 100; 0; 1
 Example ex_afterclose_rejected : conform_case ex_afterclose <> [] /\ monitor_case ex_afterclose = [902; 4; 9; 0; 100]%Z.
 Proof. vm_compute. split; [discriminate|reflexivity]. Qed.
 
-(* Emit and Close never return: rule 12 (deadlock) *)
+(* Emit and Close never return: the no-deadlock clause (rule 13: the Emit is blocked at
+   the final quiescent point although the subscription is being closed) *)
 Definition ex_stuck : list Z := [1; 1; 1; 2; 0; 1; 0; 0; 1; 0; 0; 100; 0; 101; 7; 0; 0; 0; 0; 1; 0; 0; 0; 0; 3; 0; 0; 1; 3; 0; 0; 0; 2; 0; 0; 0; 4; 0; 0; 5; 0; 0; 0]%Z.
-Example ex_stuck_rejected : monitor_case ex_stuck = [902; 12; 6]%Z.
+Example ex_stuck_rejected : monitor_case ex_stuck = [902; 13; 6; 2; 0]%Z.
 Proof. vm_compute. reflexivity. Qed.
 
 (* a reachable state meeting the hypotheses of the progress lemma: the emitter
